@@ -204,17 +204,32 @@ func checkC09(w *World, c *Check, tier string) {
 		label string
 		av    AV
 	}
-	for _, s := range w.itemStructs() {
-		pt := types.NewPointer(s)
+	// every dynamic type that can sit in an Item: pointers to and values of the vocabulary structs, IRI, the two list
+	// types and their pointers
+	for _, k := range w.nonNilItemKinds() {
 		kinds = append(kinds, struct {
 			label string
 			av    AV
-		}{"*" + s.Obj().Name(), avIface(pt, avNonNilPtr(pt))})
+		}{k.label, k.av})
+	}
+	isListRecv := func(f *ssa.Function) bool {
+		if f.Signature.Recv() == nil {
+			return false
+		}
+		n := namedOf(f.Signature.Recv().Type())
+		return n != nil && (n.Obj().Name() == "ItemCollection" || n.Obj().Name() == "IRIs")
 	}
 	for _, k := range kinds {
 		ip := newInterp(w)
-		// the type-specific comparisons themselves are opaque: the question is whether one is dispatched at all
-		ip.stopAt = func(f *ssa.Function) bool { return f.Name() == "Equals" && f.Signature.Recv() != nil }
+		// the type-specific comparisons themselves are opaque: the question is whether one is dispatched at all; the
+		// list comparison is followed up to its per-member lookups (a type filter in front of them can make a list
+		// unequal to itself)
+		ip.stopAt = func(f *ssa.Function) bool {
+			if f.Name() == "Contains" {
+				return true
+			}
+			return f.Name() == "Equals" && f.Signature.Recv() != nil && !isListRecv(f)
+		}
 		res, _, _ := ip.Call(itemsEqual, []AV{k.av, k.av}, nil, Store{}, nil)
 		b, isConst := res.isConstBool()
 		switch {
@@ -257,6 +272,177 @@ func checkC09(w *World, c *Check, tier string) {
 
 	// ---- setloop ----
 	checkSetLoops(w, c, "C09.setloop", []string{"NaturalLanguageValues", "ItemCollection", "IRIs"})
+
+	// ---- member: a list equality looks its members up by themselves, not by a projection of them ----
+	// w.Contains(it.GetLink()) compares the member's IRI with the other list's members: an embedded object without an id
+	// has the empty IRI, which equals nothing, so a list holding one is unequal to itself (and a nil member has no IRI)
+	for _, tn := range []string{"ItemCollection", "IRIs"} {
+		m := w.Method(tn, "Equals")
+		if m == nil {
+			continue
+		}
+		bad, n := "", 0
+		for _, f := range append([]*ssa.Function{m}, allAnon(m)...) {
+			lh := loopHeaders(f)
+			for _, call := range callsIn(f) {
+				name := ""
+				if cal := call.Common().StaticCallee(); cal != nil {
+					name = cal.Name()
+				} else if call.Common().IsInvoke() {
+					name = call.Common().Method.Name()
+				}
+				if (name != "Contains" && name != "ItemsEqual") || len(lh[call.Block()]) == 0 {
+					continue
+				}
+				n++
+				for _, a := range allArgs(call) {
+					if inner, ok := unwrap(a).(*ssa.Call); ok {
+						in := ""
+						if inner.Common().IsInvoke() {
+							in = inner.Common().Method.Name()
+						} else if cal := inner.Common().StaticCallee(); cal != nil {
+							in = cal.Name()
+						}
+						if in == "GetLink" || in == "GetID" {
+							bad = fmt.Sprintf("%s.Equals looks a member up by its %s() (at %s) instead of by the member itself: a member without an id has the empty IRI, which matches nothing, so a list that holds an id-less embedded object is not equal to itself", tn, in, w.InstrPos(call))
+						}
+					}
+				}
+			}
+		}
+		if bad != "" {
+			c.bad("C09.member", tn+".Equals", w.FuncPos(m), bad)
+		} else if n > 0 {
+			c.ok("C09.member", tn+".Equals", w.FuncPos(m), "members are looked up by themselves")
+		}
+	}
+
+	// ---- pair: a comparison inside an equality relates the SAME property of the two operands ----
+	var eqFns []*ssa.Function
+	for _, f := range w.Funcs {
+		if f.Parent() == nil && (f.Name() == "Equals" && f.Signature.Recv() != nil || f.Name() == "linksEqual") {
+			eqFns = append(eqFns, f)
+			eqFns = append(eqFns, allAnon(f)...)
+		}
+	}
+	npair := 0
+	for _, mp := range mispairedComparisons(w, pr, eqFns, &npair) {
+		c.bad("C09.pair", mp.key, mp.pos, mp.msg)
+	}
+	c.stat("paired_field_comparisons", npair)
+	if npair < 60 {
+		c.bad("C09.pair", "floor", "-", fmt.Sprintf("only %d field-to-field comparisons recognised in the Equals methods", npair))
+	} else {
+		c.ok("C09.pair", "all", "-", fmt.Sprintf("%d comparisons in the Equals methods each relate one property of both operands", npair))
+	}
+
+	// ---- forms: a type predicate lists the value form of a vocabulary struct iff it lists the pointer form ----
+	for _, pn := range []string{"IsObject", "IsLink", "IsItemCollection", "IsIRI", "IsIRIs"} {
+		pf := w.Func(pn)
+		if pf == nil {
+			continue
+		}
+		listed := map[string]bool{}
+		for _, b := range pf.Blocks {
+			for _, in := range b.Instrs {
+				if ta, ok := in.(*ssa.TypeAssert); ok {
+					listed[types.TypeString(ta.AssertedType, func(p *types.Package) string { return "" })] = true
+				}
+			}
+		}
+		if len(listed) == 0 {
+			continue
+		}
+		var miss []string
+		for t := range listed {
+			if strings.HasPrefix(t, "*") {
+				if !listed[t[1:]] {
+					miss = append(miss, t[1:])
+				}
+			} else if !listed["*"+t] {
+				if _, isIface := w.Types.Scope().Lookup(t).(*types.TypeName); isIface {
+					if tn, _ := w.Types.Scope().Lookup(t).(*types.TypeName); tn != nil {
+						if _, ok := tn.Type().Underlying().(*types.Interface); ok {
+							continue
+						}
+					}
+				}
+				miss = append(miss, "*"+t)
+			}
+		}
+		sort.Strings(miss)
+		if len(miss) > 0 {
+			c.bad("C09.forms", pn, w.FuncPos(pf), fmt.Sprintf("%s lists one form of %v but not the other: the value and the pointer form of the same item are classified differently, so ItemsEqual(x, x) is false (and Contains/Append misbehave) for the form that is left out", pn, miss))
+		} else {
+			c.ok("C09.forms", pn, w.FuncPos(pf), fmt.Sprintf("%d types listed, value and pointer forms together", len(listed)))
+		}
+	}
+}
+
+type mispair struct{ key, pos, msg string }
+
+// mispairedComparisons: comparisons whose two operands are single fields of two different roots but not the same field.
+func mispairedComparisons(w *World, pr *prover, fns []*ssa.Function, nok *int) []mispair {
+	var out []mispair
+	seen := map[string]int{}
+	judge := func(f *ssa.Function, ops []ssa.Value, how string, pos ssa.Instruction) {
+		if len(ops) < 2 {
+			return
+		}
+		type side struct {
+			root ssa.Value
+			path string
+			ok   bool
+		}
+		var sides []side
+		for _, o := range ops[:2] {
+			refs := pr.prov(o).list()
+			s := side{ok: len(refs) == 1}
+			if s.ok {
+				r := refs[0]
+				if len(r.Names) == 0 {
+					s.ok = false
+				} else {
+					s.root, s.path = r.Root, strings.Join(r.Names, ".")
+				}
+			}
+			sides = append(sides, s)
+		}
+		if !sides[0].ok || !sides[1].ok || sides[0].root == sides[1].root {
+			return
+		}
+		if sides[0].path == sides[1].path {
+			*nok++
+			return
+		}
+		key := fmt.Sprintf("%s:%s~%s", funcName(f), sides[0].path, sides[1].path)
+		seen[key]++
+		out = append(out, mispair{key, w.InstrPos(pos), fmt.Sprintf("%s compares %s of one operand with %s of the other (%s): a value whose %s and %s differ is not equal to itself, and two different values can compare equal", funcName(f), sides[0].path, sides[1].path, how, sides[0].path, sides[1].path)})
+	}
+	for _, f := range fns {
+		for _, b := range f.Blocks {
+			for _, in := range b.Instrs {
+				switch x := in.(type) {
+				case *ssa.BinOp:
+					if x.Op == token.EQL || x.Op == token.NEQ {
+						judge(f, []ssa.Value{x.X, x.Y}, x.Op.String(), in)
+					}
+				case *ssa.Call:
+					name := ""
+					if cal := x.Common().StaticCallee(); cal != nil {
+						name = cal.Name()
+					} else if x.Common().IsInvoke() {
+						name = x.Common().Method.Name()
+					}
+					switch name {
+					case "ItemsEqual", "Equals", "Equal", "EqualFold":
+						judge(f, allArgs(x), name, in)
+					}
+				}
+			}
+		}
+	}
+	return out
 }
 
 // checkSetLoops: Equals methods of list types written with nested loops must not answer "false" from inside the
